@@ -115,8 +115,10 @@ fn ty(g: &mut G, n: usize, idx: usize, depth: usize) -> Ty {
                 Ty::Ref(t)
             } else {
                 // recursion / forward reference through a heap type
-                match g.below(2) {
+                match g.below(4) {
                     0 => Ty::Vec(Box::new(Ty::Ref(t))),
+                    // the boxed reference inside an unnamed tuple
+                    1 => Ty::Tuple(vec![Ty::Int(*g.pick(INTS)), Ty::Opt(Box::new(Ty::Boxed(Box::new(Ty::Ref(t)))))]),
                     _ => Ty::Opt(Box::new(Ty::Boxed(Box::new(Ty::Ref(t))))),
                 }
             }
